@@ -321,6 +321,29 @@ func c12CheckGeom(c C12Case, cx *h.Ctx) *h.Failure {
 				}
 				cx.Class("union-envelope-checked")
 			}
+			// UnionMany over a long list (the two operands plus 127..300 single points on a diagonal far away): the
+			// envelope is still the join of all operands - no operand may be lost to batching
+			if n := 127 + len(c.Perm)*43 + c.Perm[0]*29; len(model.String())%4 == 0 {
+				list := []geom.Geometry{g, g2}
+				want := g.Envelope().ExpandToIncludeEnvelope(g2.Envelope())
+				for i := 0; i < n; i++ {
+					p := geom.NewPointXY(5000+float64(i), 6000+2*float64(i)).AsGeometry()
+					list = append(list, p)
+					want = want.ExpandToIncludeEnvelope(p.Envelope())
+				}
+				if rapidPermFlip := c.Perm[0]%2 == 1; rapidPermFlip {
+					list[0], list[len(list)-1] = list[len(list)-1], list[0]
+				}
+				um, err := geom.UnionMany(list)
+				if err == nil {
+					wmn, wmx, _ := want.MinMaxXYs()
+					umn, umx, uok := um.Envelope().MinMaxXYs()
+					if !uok || math.Abs(wmn.X-umn.X) > 1e-6 || math.Abs(wmn.Y-umn.Y) > 1e-6 || math.Abs(wmx.X-umx.X) > 1e-6 || math.Abs(wmx.Y-umx.Y) > 1e-6 {
+						return h.Failf("envelope/unionmany", "Envelope(UnionMany(%d operands)) = %v, join of the operands' envelopes = %v%s", len(list), um.Envelope(), want, desc())
+					}
+					cx.Class("unionmany-envelope-checked")
+				}
+			}
 		}
 	}
 	if any && (len(model.Mem) > 0 || hasEmptyMember(model) || model.CT != 0) {
